@@ -50,7 +50,16 @@ def c14(ctx):
     ctx.gotest("tracer", "^TestVerifC14", race=True, timeout=2400)
 
 
+def c03(ctx):
+    ctx.gotest("cc", "^TestVerifC03", race=False, timeout=3000)
+
+
 SPECS = {
+    "C03": {"fn": c03, "level": "exploration",
+            "technique": "runtime monitoring: metamorphic oracle over the real testResults.assert - echo and documented-leniency rewrites must keep the verdict, every single deviation at every position must fail and be named",
+            "text": "For hundreds to thousands of expected results (expanded corpus + synthetic shapes) the real assert is run on the exact echo, on each leniency-preserving rewrite alone and combined, and on every single deviation at every position (n-th payload, detail, header, value, echoed request); the recorded outcome and its text are the observation.",
+            "note": "The relation 'leniency => same verdict, deviation => failure naming it' is the statement itself; an entirely absent query-parameter list is treated as the documented leniency of service.proto (server unable to report GET info); partially merged metadata is a deviation.",
+            "assumptions": ["error text names a discrepancy when it contains the lower-cased header name, the 1-based position, or the class keyword"]},
     "C14": {"fn": c14, "level": "fault_enumeration",
             "technique": "runtime monitoring under the race detector: scripted reader/writer partitions and every truncation point through the real tracingReader / TracingHandler with a recording Collector; oracle = envelope event model + differential run without tracing",
             "text": "Generated envelope sequences (all flag values, zero lengths, end-stream compressed or not in each of the six encodings, Connect/gRPC/gRPC-Web/non-stream content types) are pushed through the real tracing reader and response writer under seven partition plans and every cut/fail offset; the delivered Trace.Events are compared with an independent event model and the application-visible bytes, (n, err) results, status, headers and trailers with an untraced run.",
